@@ -599,6 +599,15 @@ def _group_of(prog, fi: FuncInfo, e: ast.AST, node: Node) -> object:
     return None
 
 
+def _const_where(repo, mod: str, name: str) -> str:
+    """location of a module constant, wherever it is defined now (a constant that moved is still imported by `mod`)"""
+    m = repo.module(mod)
+    r = repo.lookup(name, m, None)
+    if isinstance(r, ConstInfo) and r.assigns:
+        return where(r.module if hasattr(r, "module") else m, r.assigns[0])
+    return str(m.path.name)
+
+
 def check_quotes_shape(ctx: Ctx) -> None:
     repo, prog = ctx.repo, ctx.prog
     mod = "flowmark.typography.smartquotes"
@@ -629,7 +638,7 @@ def check_quotes_shape(ctx: Ctx) -> None:
             ok_shape = good and lits == [34, 39]
     ctx.ob("R-SUBSHAPE-quote", f"{mod}:QUOTE_PATTERN :: shape g1 (\"g2\"|'g3') g4", ok_shape,
            "everything the quote pattern matches must be captured by groups 1-4 except exactly one opening and one closing straight "
-           f"quote of the same kind (un-grouped literals found: {[chr(x) for x in lits]})", where(repo.module(mod), repo.module(mod).defs['QUOTE_PATTERN'].assigns[0]))
+           f"quote of the same kind (un-grouped literals found: {[chr(x) for x in lits]})", _const_where(repo, mod, 'QUOTE_PATTERN'))
     # the content groups cannot contain a quote of their own kind (so pairs cannot nest / cross)
     # callback
     from .. import anchors
@@ -869,6 +878,14 @@ def check_writeback(ctx: Ctx) -> None:
             # totals of the segment lengths, computed outside the loop body (nothing in the body can skip an advance)
             t0, t1 = head.ast.target.elts
             it = expand_expr(prog, tr, head.ast.iter, head, strict=False)
+            pair_bounds = None
+            if isinstance(t1, ast.Tuple) and len(t1.elts) == 2 and all(isinstance(e, ast.Name) for e in t1.elts) and isinstance(it, ast.Call) \
+                    and norm(it.func) == "zip" and len(it.args) == 2 and isinstance(it.args[1], ast.Call) and norm(it.args[1].func) in ("pairwise", "itertools.pairwise") \
+                    and len(it.args[1].args) == 1:
+                # for (text, node), (start, end) in zip(segments, pairwise(accumulate(lengths, initial=0))): consecutive running totals
+                pair_bounds = (t1.elts[0].id, t1.elts[1].id)
+                it = ast.Call(func=it.func, args=[it.args[0], it.args[1].args[0]], keywords=it.keywords)
+                t1 = t1.elts[0]
             if isinstance(t0, ast.Tuple) and t0.elts and isinstance(t0.elts[0], ast.Name) and isinstance(t1, ast.Name) and isinstance(it, ast.Call) \
                     and norm(it.func) == "zip" and len(it.args) == 2 and all(k.arg == "strict" for k in it.keywords):
                 acc = expand_expr(prog, tr, it.args[1], head, strict=False)
@@ -886,6 +903,8 @@ def check_writeback(ctx: Ctx) -> None:
             cursor = v.slice.lower.id
             up = norm(expand_expr(prog, tr, v.slice.upper, s))
             ok = up in (f"{cursor} + len({text_var})", f"len({text_var}) + {cursor}")
+            if zipped_offsets and locals().get("pair_bounds"):
+                ok = (cursor, norm(v.slice.upper)) == pair_bounds  # [start:end] of the consecutive totals
         ctx.ob("R-SUBSHAPE-writeback", f"{tr.qual} :: slice [pos : pos + len(segment)]", bool(ok),
                "each node gets exactly its own stretch of the converted text", where(tr, s))
         # the cursor advances by the segment length for every segment, mutable or not
@@ -936,7 +955,7 @@ def check_ellipsis_shape(ctx: Ctx) -> None:
     g3 = next((g for g in groups if g[1][0] == 3), None)
     dots = g3 is not None and [(str(o), a) for o, a in g3[1][-1]] == [("LITERAL", 46)] * 3
     ctx.ob("R-SUBSHAPE-ellipsis", f"{mod}:ELLIPSIS_PATTERN :: group 3 is exactly three dots", bool(dots) and not ungrouped and len(groups) == 5,
-           "the pattern must consist of five groups with group 3 = `\\.\\.\\.` and nothing matched outside a group", where(repo.module(mod), repo.module(mod).defs['ELLIPSIS_PATTERN'].assigns[0]))
+           "the pattern must consist of five groups with group 3 = `\\.\\.\\.` and nothing matched outside a group", _const_where(repo, mod, 'ELLIPSIS_PATTERN'))
     # groups 2 and 5 are whitespace only
     for gi in (2, 5):
         g = next((x for x in groups if x[1][0] == gi), None)
@@ -945,7 +964,7 @@ def check_ellipsis_shape(ctx: Ctx) -> None:
             inner = list(g[1][-1])
             ok = len(inner) == 1 and str(inner[0][0]) in ("MAX_REPEAT", "MIN_REPEAT") and [(str(o), str(a)) for o, a in inner[0][1][2]] == [("IN", "[(CATEGORY, CATEGORY_SPACE)]")]
         ctx.ob("R-SUBSHAPE-ellipsis", f"{mod}:ELLIPSIS_PATTERN :: group {gi} is whitespace", ok,
-               "only whitespace directly around the dots may be normalised", where(repo.module(mod), repo.module(mod).defs['ELLIPSIS_PATTERN'].assigns[0]))
+               "only whitespace directly around the dots may be normalised", _const_where(repo, mod, 'ELLIPSIS_PATTERN'))
     el = repo.func(f"{mod}:ellipses")
     cb = None
     for n, c in prog.flow(el).all_calls():
